@@ -63,6 +63,24 @@ def trace_of(b, path, ev):
             'ref': b.ref, 'prof': b.prof, 'ev': ev}
 
 
+def rle(data):
+    """Run-length encoding in normal form (adjacent runs differ): [[octet, count], ...]."""
+    out = []
+    for m in re.finditer(rb'(.)\1*', bytes(data), re.S):
+        out.append([m.group(1)[0], len(m.group(0))])
+    return out
+
+
+def big_trace(b, path, ev):
+    t = trace_of(b, path, ev)
+    t = {k: v for k, v in t.items() if k != 'prof'}
+    t['big'] = True
+    t['ref'] = dict(t['ref'], out=rle(bytes(t['ref']['out'])))
+    t['ev'] = [dict({k: v for k, v in e.items() if k not in ('out', 'total')}, out=[],
+                    **({'total': rle(bytes(e['total']))} if 'total' in e else {})) for e in t['ev']]
+    return t
+
+
 def validate(traces):
     mon_cfg = 'SPECIFICATION MSpec\nCONSTANTS StrictTrailer = FALSE\nCONSTRAINT Record\nPOSTCONDITION Post\nCHECK_DEADLOCK FALSE\n'
     str_cfg = ('SPECIFICATION TSpec\nCONSTANTS FixFallback = %s FixEof = %s StrictTrailer = FALSE MaxP = 1\n'
@@ -173,6 +191,19 @@ def run(chk):
         if si % (5 if quick else 2) == 0:
             for prior in ('gzip', 'deflate', 'none'):
                 runs.append((b, pieces, 'after-' + prior, execute(b, pieces, 'after-' + prior), 'tlc'))
+    # bodies whose output is megabytes for a few kilobytes of input: any bound on what one call may produce must not
+    # lose data (recorded run-length encoded; validated by the monitor only)
+    big_runs = []
+    for fmt in X.MODES:
+        payload = b'\x00' * (3 * 1024 * 1024) + b'tail' + b'\x01' * 70000
+        data = X.compress(payload, 6, fmt)
+        bb = X.Body('big/%s' % fmt, X.DEC_OF[fmt], fmt, data, payload, 'intact')
+        n = len(data)
+        cuts = [[n // 2, n - n // 2], [n - 9, 9], [n], [1024] * (n // 1024) + ([n % 1024] if n % 1024 else []),
+                [1, n - 1], [n // 3, n // 3, n - 2 * (n // 3)]]
+        for pieces in (cuts[:3] if quick else cuts):
+            for path in (('length',) if quick else ('length', 'chunked')):
+                big_runs.append((bb, pieces, path, execute(bb, pieces, path), 'big'))
     for (b, pieces) in random_cases(rng, 150 if quick else 4000):
         for path in ('class', 'length'):
             runs.append((b, pieces, path, execute(b, pieces, path), 'random'))
@@ -181,6 +212,14 @@ def run(chk):
     t0 = time.time()
     traces = [trace_of(b, path, ev) for (b, pieces, path, ev, origin) in runs]
     mv, sv, stats = validate(traces)
+    if big_runs:
+        bt = [big_trace(b, path, ev) for (b, pieces, path, ev, origin) in big_runs]
+        bmv, _ = tlc.validate_batch('DecoderMon', 'SPECIFICATION MSpec\nCONSTANTS StrictTrailer = FALSE\nCONSTRAINT Record\n'
+                                    'POSTCONDITION Post\nCHECK_DEADLOCK FALSE\n', bt)
+        runs += big_runs
+        traces += bt
+        mv += bmv
+        sv += [{'matched': 0, 'len': 0, 'accepted': True, 'bad': 0}] * len(big_runs)
     chk.extra['validate_wall_s'] = round(time.time() - t0, 1)
     for st in stats:
         chk.trace_stats(st)
